@@ -30,8 +30,10 @@ TRUSTED = [
     "modelled, not verified: leaf token offsets (given as tables drained from fresh real leaves; property C01), "
     "sync.RWMutex / sync.Once / go.uber.org/atomic atomicity, the wall clock (oracle input); the merge of started.Store / "
     "started.Load into the adjacent lock sections (design/C02.md)",
-    "nested composites under concurrency: children taken as atomic objects (C02_conc_nested_partial); the substitution principle for "
-    "linearizable objects is cited, not mechanised",
+    "nested composites under concurrency (Properties/C02_nested.v, Model/SchedNested.v): child operations under a read lock are interleaved "
+    "sequences of the child's own sections (proved for every depth); write sections are atomic steps enabled only while no other thread "
+    "holds the composite's read lock (sync.RWMutex), their child calls are the sequential s_next (= a solo run of the nested steps, proved); "
+    "the rest of a read section runs in the step in which the child call returns",
 ]
 ASSUMPTIONS = ["sync.RWMutex, sync.Once and go.uber.org/atomic behave as documented",
                "time.Now is monotone; unlimited parts in the correspondence run are either closed long before or open long after the run"]
@@ -81,7 +83,7 @@ def run(ctx):
     cov = {"rule": RULE, "evaluations": 0, "distinct_nontrivial": 0}
     model_ok = ctx.coq(["Extract/Extract%s.vo" % ctx.prop], what="model+extraction")
     if model_ok:
-        ctx.properties()
+        ctx.properties(extra_files=["Properties/C02_nested.v"])
     h = ctx.build_harness("hC02")
     m = ctx.ocaml_model("mC02", "C02_model", "C02") if model_ok else None
     if h and m:
